@@ -26,4 +26,4 @@ def run(ctx):
     from ..kernels import run_kernels
     run_kernels(ctx, ["K10", "K7", "K8", "K14", "K15", "K1"], "C12")
     from ..rules_flow import revcomp_wrapper_rule
-    revcomp_wrapper_rule(ctx, "C12.circular-revcomp")
+    ctx.guard(revcomp_wrapper_rule, ctx, "C12.circular-revcomp")
